@@ -358,6 +358,8 @@ def evolve2d(cellular_automaton, timesteps, apply_rule, r=1, neighbourhood='Moor
     :return: a list of matrices, containing the results of the evolution, where the number of rows equal the number
              of time steps specified
     """
+    if isinstance(memoize, np.bool_):
+        memoize = bool(memoize)
     von_neumann_mask = np.zeros((2*r + 1, 2*r + 1), dtype=bool)
     for i in range(len(von_neumann_mask)):
         mask_size = np.absolute(r - i)
